@@ -18,6 +18,8 @@ structure DSt where
   fails  : List Tok := []          -- incarnations whose client stream cannot be opened
   shards : List Shard := []        -- shards opened so far (sorted)
   noTick : Bool := false           -- `open!`: registrations of this op do not see time pass
+  gap    : Bool := true            -- the code under test has the schedule point `replay.afterLookup` (between the replay's channel
+                                   -- look-up and its send); `begin nogap`: a checkout without that hook, look-up and send run together
 
 def app (d : DSt) (a : Act) : DSt := { d with σ := (step d.cfg d.σ a).getD d.σ }
 
@@ -33,7 +35,8 @@ def sPoint (σ : State) (k : Tok) : Option String :=
   | .start => some "s.start"
   | .set => some "s.set"
   | .added => some "RegisterShard.afterAdd"
-  | .notify _ _ => some "s.replay"
+  | .notify _ none => some "s.replay"
+  | .notify _ (some _) => some "replay.afterLookup"
   | .running => if σ.down k then some "sender.beforeClose" else none
   | .closed => some "sender.afterClose"
   | .unreg => some "UnregisterShard.afterUnlock"
@@ -73,7 +76,9 @@ def releaseS (d : DSt) (k : Tok) : DSt :=
   | .added => notifyNorm 1000 (app d (.sSnap k)) k
   | .notify todo none =>
     match todo.find? (fun r => (d.σ.inc r).lastWm) with
-    | some r => notifyNorm 1000 (app (app d (.sLook k r)) (.sSend k)) k
+    | some r =>
+      if d.gap then notifyNorm 1000 (app d (.sLook k r)) k     -- rests at `replay.afterLookup` when a channel was found
+      else notifyNorm 1000 (app (app d (.sLook k r)) (.sSend k)) k
     | none => notifyNorm 1000 d k
   | .notify _ (some _) => notifyNorm 1000 (app d (.sSend k)) k
   | .running => app d (.sClose k)
@@ -147,6 +152,7 @@ def fuel : Nat := 100000
 def step (d : DSt) (line : String) : DSt × String :=
   match Drv.words line with
   | ["begin"] => ({ cfg := d.cfg }, "ok")
+  | ["begin", "nogap"] => ({ cfg := d.cfg, gap := false }, "ok")
   | "open" :: c :: rest =>
     match c.toNat? with
     | some c =>
